@@ -42,4 +42,46 @@ mod verif_oracle_idpf_cache {
         check("HashMapCache", &mut HashMapCache::new());
         check("RingBufferCache", &mut RingBufferCache::new(4));
     }
+
+    // unit idpf_cache: Idpf::eval gives the SAME output share with every cache kind and after every history of earlier evaluations as
+    // an evaluation from the root (NoCache), for both parties, at every level including the leaf.
+    #[test]
+    fn oracle_eval_transparent() {
+        use crate::field::{Field255, Field64, FieldElement};
+        use crate::vdaf::poplar1::Poplar1IdpfValue;
+        let bits = 6usize;
+        let input = IdpfInput::from_bools(&[false, true, true, false, true, true]);
+        let inner: Vec<Poplar1IdpfValue<Field64>> = (0..bits - 1).map(|i| Poplar1IdpfValue::new([Field64::one(), Field64::from(100 + i as u64)])).collect();
+        let leaf = Poplar1IdpfValue::new([Field255::one(), Field255::from(7u64)]);
+        let nonce = [9u8; 16];
+        let idpf = Idpf::new((), ());
+        let (public_share, keys) = idpf.gen(&input, inner, leaf, b"ctx", &nonce).unwrap();
+        // all prefixes of lengths 1..=6 over a few bit patterns
+        let mut prefixes: Vec<IdpfInput> = Vec::new();
+        for len in 1..=bits { for pat in [0b011011u32, 0b011010, 0b010000, 0b111111, 0b000000, 0b011101] {
+            let b: Vec<bool> = (0..len).map(|i| (pat >> (bits - 1 - i)) & 1 == 1).collect();
+            prefixes.push(IdpfInput::from_bools(&b));
+        } }
+        for agg_id in 0..2usize {
+            let reference: Vec<_> = prefixes.iter().map(|p| idpf.eval(agg_id, &public_share, &keys[agg_id], p, b"ctx", &nonce, &mut NoCache::new()).unwrap()).collect();
+            // histories: forward, backward, interleaved long/short; caches of several capacities
+            let orders: Vec<Vec<usize>> = vec![(0..prefixes.len()).collect(), (0..prefixes.len()).rev().collect(),
+                                               (0..prefixes.len()).map(|i| (i * 7) % prefixes.len()).collect(), (0..prefixes.len()).map(|i| (i * 11 + 5) % prefixes.len()).collect()];
+            for order in &orders {
+                let mut caches: Vec<(String, Box<dyn IdpfCache>)> = vec![("HashMapCache".into(), Box::new(HashMapCache::new())), ("RingBufferCache(1)".into(), Box::new(RingBufferCache::new(1))),
+                    ("RingBufferCache(2)".into(), Box::new(RingBufferCache::new(2))), ("RingBufferCache(5)".into(), Box::new(RingBufferCache::new(5))), ("RingBufferCache(64)".into(), Box::new(RingBufferCache::new(64)))];
+                for (name, cache) in caches.iter_mut() {
+                    for (step, &k) in order.iter().enumerate() {
+                        match idpf.eval(agg_id, &public_share, &keys[agg_id], &prefixes[k], b"ctx", &nonce, cache.as_mut()) {
+                            Ok(got) => if got != reference[k] {
+                                println!("COUNTEREXAMPLE Idpf::eval (aggregator {}) with {} after {} earlier evaluations: the output share for a {}-bit prefix differs from the evaluation from the root (NoCache) - the result depends on the cache and the history", agg_id, name, step, prefixes[k].len());
+                                return;
+                            },
+                            Err(e) => { println!("COUNTEREXAMPLE Idpf::eval (aggregator {}) with {} fails on a {}-bit prefix: {}", agg_id, name, prefixes[k].len(), e); return; }
+                        }
+                    }
+                }
+            }
+        }
+    }
 }
